@@ -55,7 +55,7 @@ fn bounds_for(prop: &str, tier: &str, th: &Theory) -> Bounds {
         depth: if thorough { m("depth_thorough", 6) } else { m("depth_quick", 4) } as usize,
         prelude_elems: m("elem_cap", 2) as usize,
         extra_new: if thorough { m("extra_new", 1) as usize } else { 0 },
-        max_defines: if thorough { 2 } else { 1 },
+        max_defines: m("max_defines", if thorough { 2 } else { 1 }) as usize,
         max_closes: if thorough { 3 } else { 2 },
         state_cap: envu("VERIF_STATE_CAP", if thorough { 400_000 } else { 150_000 }) as usize,
         wall_cap_s: envu("VERIF_THEORY_WALL", if thorough { 60 } else { 10 }),
